@@ -177,3 +177,43 @@ class Piece:
             return (-f(2) + 8 * f(1) - 8 * f(-1) + f(-2)) / 12
         x = Fraction(self.x)
         return (-self.at(x + 2) + 8 * self.at(x + 1) - 8 * self.at(x - 1) + self.at(x - 2)) / 12
+
+
+class UF:
+    """A libm function in the exact-real domain: every call returns a fresh real constrained by the function's
+    contract; functional consistency / monotonicity / parity between call sites are added pairwise
+    (Ackermann style), so the nlsat tactic applies (no uninterpreted symbols)."""
+
+    def __init__(self, ex, name, contract=None, increasing=False, odd=False, even=False, concrete=None):
+        self.ex, self.name, self.contract = ex, name, contract
+        self.increasing, self.odd, self.even, self.concrete = increasing, odd, even, concrete
+        self.calls = []
+        ex.hooks[name] = self
+
+    def __call__(self, ex, x):
+        if ex.concrete is not None:
+            r = Fraction(self.concrete(float(x)))
+            self.calls.append((x, r))
+            return r
+        x = ex.as_real(x)
+        for a, r in self.calls:
+            if isinstance(a, Fraction) and isinstance(x, Fraction) and a == x:
+                return r
+        r = ex.fresh_real(self.name)
+        if self.contract:
+            ex.add(self.contract(R(x), r))
+        for a, q in self.calls:
+            ex.add(z3.Implies(R(a) == R(x), q == r))
+            if self.increasing:
+                ex.add(z3.Implies(R(a) < R(x), q < r))
+                ex.add(z3.Implies(R(x) < R(a), r < q))
+            if self.odd:
+                ex.add(z3.Implies(R(a) == -R(x), q == -r))
+            if self.even:
+                ex.add(z3.Implies(R(a) == -R(x), q == r))
+        self.calls.append((x, r))
+        return r
+
+    def result_for(self, arg_pred):
+        """results of the calls whose argument satisfies arg_pred(arg) syntactically (used by structure clauses)"""
+        return [(a, r) for a, r in self.calls if arg_pred(a)]
